@@ -353,11 +353,12 @@ Section UStep.
     apply reply_of_eq in B. pose proof H as H2. rewrite B in H2. clear B.
     cbn [stepr] in H2. unfold step_csl_deliver in H2. chks H2. cbn [N.eqb] in H2. chks H2.
     apply sent_by_In in C. destruct C as [e0 [Ce1 Ce2]]. destruct e0; try discriminate. beq. subst.
+    destruct (first_gone_spec _ _ _ C0) as [k0 [Fg [K1 K2]]]. rewrite Fg in H2.
     destruct (step_keys _ _ _ _) as [s2 |] eqn:E; try discriminate. injection H2 as Es.
-    apply (gone_some_rb ks); [intros k Hk; eapply (u_cslsent _ _ U); eauto | | exact C0].
-    intros k Hk. destruct (kget s T k) eqn:Ek; try (left; discriminate). right. rewrite <- Es.
-    destruct (step_keys_char _ _ _ _ _ _ tr_csl_rb_ok tr_csl_rb_idem tr_csl_rb_total E k) as [[_ Ch] | [Hn _]]; [| contradiction].
-    change (kget (add_dlv s _) T k) with (kget s T k) in Ch. rewrite Ek in Ch. cbn in Ch. inversion Ch. auto.
+    apply (gone_some_rb [k0]); [intros k [<- | []]; eapply (u_cslsent _ _ U); eauto | | cbn [existsb]; rewrite K2; reflexivity].
+    intros k [<- | []]. destruct (kget s T k0) eqn:Ek; try (left; discriminate). right. rewrite <- Es.
+    destruct (step_keys_char _ _ _ _ _ _ tr_csl_rb_ok tr_csl_rb_idem tr_csl_rb_total E k0) as [[_ Ch] | [Hn _]]; [| exfalso; apply Hn; left; reflexivity].
+    change (kget (add_dlv s _) T k0) with (kget s T k0) in Ch. rewrite Ek in Ch. cbn in Ch. inversion Ch. auto.
   Qed.
 
   Lemma us_gone : forall r c ks, In (ECmReply r T c ks CmGone) (s_dlv s') -> In (prim s' T) ks -> some_rb s' T.
